@@ -1,6 +1,6 @@
 (* C04 continued: the multi-value lists, the header line, the header block and the message. *)
 From Sipsp Require Import RunLemmas Safe SafeLeaf Harness Ext ExtLeaf ExtNameAddr ExtNested ExtLists ExtAdv OkBounds MsgBounds
-  Sim Capacity SafeMore ExtCSeq ExtFLine ExtHdrLine HdrLineBounds ExtHeaders.
+  Sim Capacity SafeMore ExtCSeq ExtFLine ExtHdrLine HdrLineBounds ExtHeaders CapHeaders Framing.
 From Coq Require Import ZifyN ZifyNat ZifyBool.
 
 (* ---- Contact values ------------------------------------------------------------------------------------------------ *)
@@ -891,4 +891,324 @@ Proof.
     pose proof (hb_run_safe HPAI pre (c :: r1) i st v eq_refl Hi ltac:(unfold pf_end; lia) ltac:(unfold pf_end; lia) H3) as H.
     destruct (hb_run HPAI pre (c :: r1) i st v); try contradiction. exact H.
   - rewrite hit_fin by exact Hs. apply HQ_err; [unfold nnat; lia|discriminate|discriminate].
+Qed.
+
+(* ParseHdrLine as an exported call *)
+Theorem hdrline_safe buf offs st : offs <= nnat (length buf) -> HInv (rev (firstn (N.to_nat offs) buf)) offs st ->
+  match parse_hdrline buf offs st with
+  | Done o e st' => o <= nnat (length buf) /\
+                    (e = EMore -> offs <= o /\ HInv (rev (firstn (N.to_nat o) buf)) o st') /\
+                    (e = EOk -> offs <= o /\ match hx_pv st' with None => True | Some v' => PVq o v' end)
+  | _ => False
+  end.
+Proof.
+  intros Ho Hinv.
+  pose proof (rl_parse hl_iter HInv (fun _ _ _ => True) (fun o st' => match hx_pv st' with None => True | Some v' => PVq o v' end)) as H.
+  specialize (H ltac:(intros p r j s Hj HI; pose proof (hl_step_ok p r j s Hj HI) as X; unfold hl_step_res, HQ, rl_Q in *;
+                      destruct (hit p r j s); auto; destruct X as (X1 & X2 & X3); auto) buf offs st Ho Hinv).
+  unfold parse_hdrline. destruct (parse hl_iter buf offs st) as [o e st'| |]; auto. destruct H as (H1 & _ & H3 & H4). auto.
+Qed.
+
+(* ---- the header block ------------------------------------------------------------------------------------------------------ *)
+Definition HSInv (pre : list byte) (i : N) (st : hdrs_st) : Prop :=
+  HInv pre i (hs_sel st) /\ ~ hl_fin (hs_sel st) /\ hl_wf (hs_l st).
+Definition HSQ (pre rest : list byte) (i o : N) (e : err) (st : hdrs_st) : Prop :=
+  o <= i + nnat (length rest) /\
+  (e = EMore -> exists k, (k <= length rest)%nat /\ o = i + nnat k /\ HSInv (zpre k pre rest) o st) /\
+  (e = EOk -> i <= o).
+Definition hs_step_res (pre rest : list byte) (i : N) (r : ires hdrs_st) : Prop :=
+  match r with
+  | Next k st' => (0 < k <= length rest)%nat /\ HSInv (zpre k pre rest) (i + nnat k) st'
+  | Ret o e st' => HSQ pre rest i o e st'
+  | IPanic => False
+  end.
+
+Lemma hl_run_q pre rest i st : i = nnat (length pre) -> HInv pre i st ->
+  match run hl_iter pre rest i 0 st with
+  | Done o e st' => HQ pre rest i o e st'
+  | _ => False
+  end.
+Proof.
+  intros Hi Hinv.
+  pose proof (rl_run hl_iter HInv (fun _ _ _ => True) (fun o st' => match hx_pv st' with None => True | Some v' => PVq o v' end)) as H.
+  specialize (H ltac:(intros p r j s Hj HI; pose proof (hl_step_ok p r j s Hj HI) as X; unfold hl_step_res, HQ, rl_Q in *;
+                      destruct (hit p r j s); auto; destruct X as (X1 & X2 & X3); auto) pre rest i st Hi Hinv).
+  destruct (run hl_iter pre rest i 0 st) as [o e st'| |]; auto. destruct H as (H1 & _ & H3 & H4). unfold HQ. auto.
+Qed.
+
+Lemma hs_step_ok pre rest i st : i = nnat (length pre) -> HSInv pre i st -> hs_step_res pre rest i (hs_iter pre rest i st).
+Proof.
+  intros Hi (Hinv & Hnf & Hwf). destruct rest as [|c r].
+  { cbn. unfold HSQ. split; [lia|]. split; [|intros E; discriminate]. intros _. exists 0%nat. split; [lia|]. split; [unfold nnat; lia|].
+    replace (i + nnat 0) with i by (unfold nnat; lia). exact (conj Hinv (conj Hnf Hwf)). }
+  rewrite hs_iter_def.
+  pose proof (hl_run_q pre (c :: r) i (hs_sel st) Hi Hinv) as H.
+  destruct (run hl_iter pre (c :: r) i 0 (hs_sel st)) as [n e x| |] eqn:Er; try contradiction.
+  destruct H as (H1 & H2 & H3). unfold hs_post. cbv zeta.
+  assert (Hweak : forall e' s', e' <> EMore -> (e' = EOk -> i <= n) -> hs_step_res pre (c :: r) i (Ret n e' s')).
+  { intros e' s' N1 N2. unfold hs_step_res, HSQ. split; [exact H1|]. split; [intros E; congruence|exact N2]. }
+  destruct e; try (apply Hweak; [discriminate|intros E; discriminate]).
+  - (* the header is complete *)
+    destruct (H3 eq_refl) as [Hin Hq].
+    pose proof (hl_run_ok pre (c :: r) i (hs_sel st) n x Er) as (O1 & [O2|O2] & O3); [|contradiction].
+    unfold hs_step_res. split; [unfold nnat in *; lia|]. replace (i + nnat (N.to_nat (n - i))) with n by (unfold nnat; lia).
+    set (h := hx_h x).
+    destruct (hl_store_proj (hs_l st) h) as (S1 & S2 & S3 & S4 & S5).
+    set (l1 := hl_store (hs_l st) h) in *.
+    set (p1 := l1 <| hl_pflags := _ |>).
+    assert (Pp : hl_n p1 = hl_n l1 /\ hl_hdrs p1 = hl_hdrs l1 /\ hl_tmp p1 = hl_tmp l1) by (subst p1; destruct l1; cbn; repeat split; reflexivity).
+    destruct Pp as (B2 & B3 & B4).
+    destruct (hl_sethdr_proj p1 h) as (C1 & C2 & C3 & C4 & C5). set (l2 := hl_sethdr p1 h) in *.
+    set (l3 := if hl_is_tmp (hs_l st) then l2 <| hl_tmp := hdr0 |> else l2).
+    assert (D : hl_n l3 = hl_n l2 /\ hl_hdrs l3 = hl_hdrs l2 /\ hl_tmp l3 = (if hl_is_tmp (hs_l st) then hdr0 else hl_tmp l2))
+      by (subst l3; destruct (hl_is_tmp (hs_l st)); destruct l2; cbn; repeat split; reflexivity).
+    destruct D as (D2 & D3 & D5).
+    set (l4 := l3 <| hl_n := hl_n l3 + 1 |>).
+    assert (F : hl_n l4 = hl_n l3 + 1 /\ hl_hdrs l4 = hl_hdrs l3 /\ hl_tmp l4 = hl_tmp l3) by (subst l4; destruct l3; cbn; repeat split; reflexivity).
+    destruct F as (G2 & G3 & G5).
+    assert (X1 : hl_n l4 = hl_n (hs_l st) + 1) by (rewrite G2, D2, C2, B2, S2; reflexivity).
+    assert (X2 : hl_hdrs l4 = (if hl_is_tmp (hs_l st) then hl_hdrs (hs_l st) else set_nth (N.to_nat (hl_n (hs_l st))) h (hl_hdrs (hs_l st)))) by (rewrite G3, D3, C3, B3, S4; reflexivity).
+    assert (X3 : hl_tmp l4 = (if hl_is_tmp (hs_l st) then hdr0 else hl_tmp (hs_l st))) by (rewrite G5, D5, C4, B4, S5; destruct (hl_is_tmp (hs_l st)); reflexivity).
+    pose proof (hnext_slot (hs_l st) l4 h Hwf X1 X2 X3) as Hslot. pose proof (hnext_wf (hs_l st) l4 h Hwf X1 X2 X3) as Hwf4.
+    unfold HSInv, hs_sel. cbn [hs_l hs_pv]. rewrite Hslot. split; [|split; [|exact Hwf4]].
+    + unfold HInv. cbn. split; [unfold pf_end; cbn; lia|]. split; [unfold pf_end; cbn; lia|].
+      destruct (hx_pv x) as [v'|]; [apply PVq_PV; exact Hq|reflexivity].
+    + apply nb_not_fin. reflexivity.
+  - (* end of the block *)
+    destruct (0 <? _); apply Hweak; try discriminate; intros _;
+      pose proof (run_sel_bounds hl_iter (fun e => e = EEmpty)) as Hb;
+      specialize (Hb ltac:(intros p r0 j s; pose proof (hl_iter_empty p r0 j s) as Y; destruct (hit p r0 j s) as [|o1 e1 s1|]; auto; intros ->; exact Y)
+                    (c :: r) pre i (hs_sel st) n EEmpty x Er eq_refl); lia.
+  - (* suspended inside a header *)
+    destruct (H2 eq_refl) as (k & Hk & Hn & Hinv').
+    unfold hs_step_res, HSQ. split; [exact H1|]. split; [|intros E; discriminate]. intros _. exists k. split; [exact Hk|]. split; [exact Hn|].
+    unfold HSInv. change (mkhdrs_st (hl_store (hs_l st) (hx_h x)) (hx_pv x)) with (hs_store st x). rewrite hs_sel_store.
+    split; [exact Hinv'|]. split; [|unfold hs_store; cbn; apply hl_wf_store; exact Hwf].
+    apply (hl_run_more pre (c :: r) i (hs_sel st) n x ltac:(intros E; discriminate E) Er).
+Qed.
+
+Theorem headers_safe buf offs st : offs <= nnat (length buf) -> HSInv (rev (firstn (N.to_nat offs) buf)) offs st ->
+  match parse_headers buf offs st with
+  | Done o e st' => o <= nnat (length buf) /\
+                    (e = EMore -> offs <= o /\ HSInv (rev (firstn (N.to_nat o) buf)) o st') /\ (e = EOk -> offs <= o)
+  | _ => False
+  end.
+Proof.
+  intros Ho Hinv.
+  pose proof (rl_parse hs_iter HSInv (fun _ _ _ => True) (fun _ _ => True)) as H.
+  specialize (H ltac:(intros p r j s Hj HI; pose proof (hs_step_ok p r j s Hj HI) as X; unfold hs_step_res, HSQ, rl_Q in *;
+                      destruct (hs_iter p r j s); auto; destruct X as (X1 & X2 & X3); repeat split; auto; intros E; specialize (X3 E); auto) buf offs st Ho Hinv).
+  unfold parse_headers. destruct (parse hs_iter buf offs st) as [o e st'| |]; auto. destruct H as (H1 & _ & H3 & H4).
+  split; [exact H1|]. split; [exact H3|]. intros E. apply (H4 E).
+Qed.
+
+(* ---- the message ------------------------------------------------------------------------------------------------------------ *)
+(* a header block that has not been started: it can be started at any later offset *)
+Definition HSstart (i : N) (hs : hdrs_st) : Prop :=
+  hl_wf (hs_l hs) /\ is_body (h_state (hl_slot (hs_l hs))) = false /\
+  pf_end (h_name (hl_slot (hs_l hs))) <= i /\ pf_end (h_val (hl_slot (hs_l hs))) <= i /\
+  match hs_pv hs with None => True | Some v => PVq i v end.
+Lemma HSstart_inv i o pre' hs : HSstart i hs -> i <= o -> HSInv pre' o hs.
+Proof.
+  intros (Hwf & Hb & Hn & Hv & Hq) Ho. unfold HSInv, hs_sel. split; [|split; [|exact Hwf]].
+  - unfold HInv. cbn. split; [lia|]. split; [lia|]. destruct (hs_pv hs) as [v|]; [apply PVq_PV; apply (PVq_mono i); assumption|exact Hb].
+  - apply nb_not_fin. exact Hb.
+Qed.
+
+Definition MInv (pre : list byte) (i : N) (m : pmsg) : Prop :=
+  match m_state m with
+  | MInit => fl_inv i (m_fl m) /\ HSstart i (m_hs m)
+  | MFLine => fl_inv i (m_fl m) /\ HSstart i (m_hs m) /\ m_offs m <= i
+  | MHeaders => HSInv pre i (m_hs m) /\ m_offs m <= i
+  | MBody => m_offs m <= i
+  | _ => True
+  end.
+
+Lemma body_safe flags L o m : o <= L -> m_offs m <= o ->
+  match msg_body flags L o m with
+  | Done n e m' => n <= L /\ (e = EMore -> n = o /\ m_state m' = m_state m /\ m_offs m' = m_offs m) /\ (e = EOk -> o <= n)
+  | _ => False
+  end.
+Proof.
+  intros Ho Hoffs. unfold msg_body, msg_end. rewrite body_set. destruct m as [fl hs body bl raw st offs]. cbn in Hoffs.
+  cbn -[testbit N.ltb N.add N.sub pf_extend]. set (cl := pv_clen _).
+  assert (PE : forall x, o <= x -> pf_extend (mkpf o 0) x = Some (mkpf o (x - o))) by (intros x Hx; apply pf_extend_some; exact Hx).
+  repeat match goal with
+         | |- context [if ?b then _ else _] => destruct b eqn:?
+         end; rewrite ?PE by lia; cbn -[N.add N.sub];
+  repeat match goal with
+         | |- context [if ?b then _ else _] => destruct b eqn:?
+         end; try lia; repeat split; intros; try discriminate; try lia.
+Qed.
+
+Definition MQ (buf : list byte) (offs : N) (r : res pmsg) : Prop :=
+  match r with
+  | Done o e m' => o <= nnat (length buf) /\
+                   (e = EMore -> offs <= o /\ MInv (rev (firstn (N.to_nat o) buf)) o m') /\ (e = EOk -> offs <= o)
+  | _ => False
+  end.
+
+Lemma fail_safe flags buf offs o e m : o <= nnat (length buf) -> e <> EOk ->
+  (e = EMore -> offs <= o /\ MInv (rev (firstn (N.to_nat o) buf)) o m) -> MQ buf offs (msg_fail flags o e m).
+Proof.
+  intros Ho He Hm. unfold msg_fail, MQ. destruct e; try (split; [exact Ho|split; intros E; congruence]).
+  destruct (testbit flags bSIPMsgNoMoreData); [split; [exact Ho|split; intros E; discriminate]|].
+  split; [exact Ho|]. split; [intros _; apply Hm; reflexivity|intros E; discriminate].
+Qed.
+
+Lemma mheaders_safe flags buf offs o m : o <= nnat (length buf) -> offs <= o -> m_offs m <= o -> m_state m = MHeaders ->
+  HSInv (rev (firstn (N.to_nat o) buf)) o (m_hs m) -> MQ buf offs (msg_headers flags buf o m).
+Proof.
+  intros Ho Hoo Hoffs Hst Hinv. unfold msg_headers.
+  pose proof (headers_safe buf o (m_hs m) Ho Hinv) as H.
+  destruct (parse_headers buf o (m_hs m)) as [o1 e hs1| |]; try contradiction. destruct H as (H1 & H2 & H3).
+  destruct e; try (apply fail_safe; [exact H1|discriminate|intros E; discriminate]).
+  - (* the body *)
+    specialize (H3 eq_refl).
+    pose proof (body_safe flags (nnat (length buf)) o1 (m <| m_hs := hs1 |> <| m_state := MBody |>) H1 ltac:(destruct m; cbn in *; lia)) as Hb.
+    destruct (msg_body flags (nnat (length buf)) o1 _) as [n e m'| |]; try contradiction. destruct Hb as (B1 & B2 & B3).
+    unfold MQ. split; [exact B1|]. split.
+    + intros E. destruct (B2 E) as (-> & Es & Eo). split; [lia|]. unfold MInv. rewrite Es. destruct m; cbn in *. lia.
+    + intros E. specialize (B3 E). lia.
+  - (* suspended in the headers *)
+    apply fail_safe; [exact H1|discriminate|]. intros _. destruct (H2 eq_refl) as [Hoo1 Hinv1]. split; [lia|].
+    unfold MInv. destruct m; cbn in *. subst. split; [exact Hinv1|lia].
+Qed.
+
+Lemma mfline_safe flags buf offs m : offs <= nnat (length buf) -> m_offs m <= offs -> m_state m = MFLine ->
+  fl_inv offs (m_fl m) -> HSstart offs (m_hs m) -> MQ buf offs (msg_fline flags buf offs m).
+Proof.
+  intros Ho Hoffs Hst Hfl Hhs. unfold msg_fline.
+  pose proof (fline_safe buf offs (m_fl m) Ho Hfl) as H.
+  destruct (parse_fline buf offs (m_fl m)) as [o1 e fl1| |]; try contradiction. destruct H as (H1 & H2 & H3 & H4).
+  destruct e; try (apply fail_safe; [exact H1|discriminate|intros E; discriminate]).
+  - specialize (H4 eq_refl).
+    apply mheaders_safe; [exact H1|exact H4|destruct m; cbn in *; lia|destruct m; reflexivity|].
+    destruct m; cbn in *. apply (HSstart_inv offs); assumption.
+  - apply fail_safe; [exact H1|discriminate|]. intros _. destruct (H3 eq_refl) as [Hoo1 Hfl1]. split; [exact Hoo1|].
+    unfold MInv. destruct m; cbn in *. subst. split; [exact Hfl1|]. split; [|lia].
+    destruct Hhs as (A1 & A2 & A3 & A4 & A5). split; [exact A1|]. split; [exact A2|]. split; [lia|]. split; [lia|].
+    destruct (hs_pv m_hs) as [v|]; [apply (PVq_mono offs); assumption|exact I].
+Qed.
+
+(* C04 for ParseSIPMsg: no panic, no stuck loop, the returned offset is inside the buffer and, on success or
+   suspension, not before the start offset; a suspended object satisfies the invariant again *)
+Theorem message_safe flags buf offs m : offs <= nnat (length buf) -> MInv (rev (firstn (N.to_nat offs) buf)) offs m ->
+  MQ buf offs (parse_sipmsg flags buf offs m).
+Proof.
+  intros Ho Hinv. unfold parse_sipmsg. cbv zeta.
+  assert (Est : m_state (m <| m_buflen := nnat (length buf) |>) = m_state m) by (destruct m; reflexivity).
+  rewrite Est. unfold MInv in Hinv.
+  destruct (m_state m) eqn:Es.
+  - destruct Hinv as [Hfl Hhs]. apply mfline_safe; destruct m; cbn in *; auto; lia.
+  - destruct Hinv as (Hfl & Hhs & Hoffs). apply mfline_safe; destruct m; cbn in *; auto.
+  - destruct Hinv as [Hhs Hoffs]. apply mheaders_safe; destruct m; cbn in *; auto; lia.
+  - pose proof (body_safe flags (nnat (length buf)) offs (m <| m_buflen := nnat (length buf) |>) Ho ltac:(destruct m; cbn in *; lia)) as Hb.
+    destruct (msg_body flags (nnat (length buf)) offs _) as [n e m'| |]; try contradiction. destruct Hb as (B1 & B2 & B3).
+    unfold MQ. split; [exact B1|]. split.
+    + intros E. destruct (B2 E) as (-> & Es' & Eo). split; [lia|]. unfold MInv. rewrite Es'. destruct m; cbn in *. rewrite Es. lia.
+    + intros E. specialize (B3 E). lia.
+  - apply fail_safe; [exact Ho|discriminate|intros E; discriminate].
+  - apply fail_safe; [exact Ho|discriminate|intros E; discriminate].
+  - apply fail_safe; [exact Ho|discriminate|intros E; discriminate].
+Qed.
+
+(* ---- fresh objects -------------------------------------------------------------------------------------------------------------- *)
+Lemma ct_inv_init n pre' o : ct_inv pre' o (contacts_init (repeat pfrom0 n)).
+Proof.
+  unfold ct_inv, contacts_init. rewrite ct_sel_eq. cbn [ct_lasthval po].
+  assert (Hsel : (if nnat (length (repeat pfrom0 n)) <=? 0 then if fb_parsed pfrom0 then pfrom0 else pfrom0 else nth (N.to_nat 0) (repeat pfrom0 n) pfrom0) = pfrom0)
+    by (destruct (_ <=? 0); [destruct (fb_parsed pfrom0); reflexivity|apply nth_repeat]).
+  rewrite Hsel. split; [apply pfrom0_inv; cbn; lia|]. split; [unfold pf_end; cbn; lia|].
+  split; [intros j _; apply nth_repeat|reflexivity].
+Qed.
+Lemma pa_inv_init pre' o : pa_inv pre' o pais0.
+Proof.
+  assert (Hsel : pa_sel pais0 = pfrom0) by (vm_compute; reflexivity).
+  unfold pa_inv. rewrite Hsel. split; [apply pfrom0_inv; cbn; lia|]. split; [unfold pf_end; cbn; lia|].
+  split; [intros j _; unfold pais0; cbn [pa_vals]; apply nth_repeat|reflexivity].
+Qed.
+Lemma PVq_init n o : PVq o (phvals_init (repeat pfrom0 n)).
+Proof.
+  unfold PVq, phvals_init. cbn.
+  assert (Hq : qt_fb o pfrom0) by (right; split; [unfold fb_bnd, pf_end; cbn; repeat split; try lia; intros; lia|split; [discriminate|reflexivity]]).
+  split; [exact Hq|]. split; [exact Hq|]. split; [right; apply callid0_inv|]. split; [right; apply cseq0_inv|].
+  split; [split; [unfold pf_end; cbn; lia|right; apply uintb0_inv]|]. split; [split; [unfold pf_end; cbn; lia|right; apply uintb0_inv]|].
+  split; [intros pre'; apply ct_inv_init|intros pre'; apply pa_inv_init].
+Qed.
+Lemma HSstart_init nh nc o : HSstart o (mkhdrs_st (hdrlst_init (repeat hdr0 nh)) (Some (phvals_init (repeat pfrom0 nc)))).
+Proof.
+  unfold HSstart. cbn [hs_l hs_pv].
+  assert (Hslot : hl_slot (hdrlst_init (repeat hdr0 nh)) = hdr0)
+    by (unfold hl_slot, hdrlst_init, hl_is_tmp, hl_cap; cbn; destruct (_ <=? 0); [reflexivity|apply nth_repeat]).
+  rewrite Hslot. split; [split; [intros j _; apply nth_repeat|reflexivity]|]. split; [reflexivity|].
+  split; [unfold pf_end; cbn; lia|]. split; [unfold pf_end; cbn; lia|apply PVq_init].
+Qed.
+Theorem MInv_init L nh nc pre o : MInv pre o (msg_init L (repeat hdr0 nh) (repeat pfrom0 nc)).
+Proof. unfold MInv, msg_init. cbn. split; [apply fline0_inv|apply HSstart_init]. Qed.
+Theorem MInv_reset m pre o : MInv pre o (msg_reset m).
+Proof. unfold msg_reset. rewrite !map_const_repeat. apply MInv_init. Qed.
+
+(* ---- every chunk schedule ----------------------------------------------------------------------------------------------------------- *)
+Lemma firstn_firstn_le {A} (l : list A) a b : (a <= b)%nat -> firstn a (firstn b l) = firstn a l.
+Proof. intros H. rewrite firstn_firstn. now rewrite Nat.min_l. Qed.
+
+Theorem message_safe_chunked flags b : forall cuts k m, Resume.sorted_from (N.to_nat k) cuts -> k <= nnat (length b) ->
+  MInv (rev (firstn (N.to_nat k) b)) k m ->
+  match chunked (parse_sipmsg flags) b cuts k m with
+  | Done o e m' => o <= nnat (length b) /\ (e = EOk -> k <= o)
+  | _ => False
+  end.
+Proof.
+  induction cuts as [|c cs IH]; intros k m Hs Hk Hinv; cbn [chunked].
+  - pose proof (message_safe flags b k m Hk Hinv) as H. unfold MQ in H.
+    destruct (parse_sipmsg flags b k m) as [o e m'| |]; auto. destruct H as (H1 & _ & H3). auto.
+  - destruct Hs as [Hkc Hs].
+    destruct (le_lt_dec c (length b)) as [Hcb|Hcb].
+    + assert (Hlen : length (firstn c b) = c) by (apply firstn_length_le; exact Hcb).
+      pose proof (message_safe flags (firstn c b) k m) as H. rewrite Hlen in H.
+      rewrite (firstn_firstn_le b (N.to_nat k) c Hkc) in H. specialize (H ltac:(unfold nnat; lia) Hinv). unfold MQ in H.
+      destruct (parse_sipmsg flags (firstn c b) k m) as [o e m'| |]; auto. destruct H as (H1 & H2 & H3).
+      destruct e; try (split; [unfold nnat in *; lia|intros E; try discriminate; apply H3; exact E]).
+      destruct (H2 eq_refl) as [Hko Hinv']. rewrite (firstn_firstn_le b (N.to_nat o) c ltac:(unfold nnat in *; lia)) in Hinv'.
+      specialize (IH o m' ltac:(destruct cs as [|c2 cs2]; [exact I|destruct Hs as [Hc2 Hs2]; split; [unfold nnat in *; lia|exact Hs2]]) ltac:(unfold nnat in *; lia) Hinv').
+      destruct (chunked (parse_sipmsg flags) b cs o m') as [o2 e2 m2| |]; auto. destruct IH as [I1 I2]. split; [exact I1|intros E; specialize (I2 E); lia].
+    + (* the cut lies beyond the buffer: the prefix is the whole buffer *)
+      rewrite (firstn_all2 b) by lia.
+      pose proof (message_safe flags b k m Hk Hinv) as H. unfold MQ in H.
+      destruct (parse_sipmsg flags b k m) as [o e m'| |]; auto. destruct H as (H1 & H2 & H3).
+      destruct e; try (split; [exact H1|intros E; try discriminate; apply H3; exact E]).
+      destruct (H2 eq_refl) as [Hko Hinv'].
+      assert (Hs' : Resume.sorted_from (N.to_nat o) cs).
+      { destruct cs as [|c2 cs2]; [exact I|]. destruct Hs as [Hc2 Hs2]. split; [unfold nnat in *; lia|exact Hs2]. }
+      specialize (IH o m' Hs' H1 Hinv').
+      destruct (chunked (parse_sipmsg flags) b cs o m') as [o2 e2 m2| |]; auto. destruct IH as [I1 I2]. split; [exact I1|intros E; specialize (I2 E); lia].
+Qed.
+
+(* ---- the two multi-value lists as exported calls ------------------------------------------------------------------------------------------ *)
+Theorem contacts_safe buf offs c : offs <= nnat (length buf) -> ct_inv (rev (firstn (N.to_nat offs) buf)) offs c ->
+  match parse_all_contacts buf offs c with
+  | Done o e c' => o <= nnat (length buf) /\ pf_end (ct_lasthval c') <= nnat (length buf) /\
+                   (e = EMore -> offs <= o /\ ct_inv (rev (firstn (N.to_nat o) buf)) o c') /\
+                   (e = EOk -> offs <= o /\ forall pre', ct_inv pre' o c')
+  | _ => False
+  end.
+Proof.
+  intros Ho Hinv.
+  pose proof (rl_parse ct_iter ct_inv (fun o _ c => pf_end (ct_lasthval c) <= o) (fun n c => forall pre', ct_inv pre' n c)) as H.
+  exact (H ltac:(intros p r j s Hj HI; pose proof (ct_step_ok p r j s (conj Hj HI)) as X; unfold ct_step_res, ct_P, ct_Q, rl_Q in *;
+                      destruct (ct_iter p r j s); auto; destruct X as [X1 [X2 X3]]; auto) buf offs c Ho Hinv).
+Qed.
+Theorem pais_safe buf offs c : offs <= nnat (length buf) -> pa_inv (rev (firstn (N.to_nat offs) buf)) offs c ->
+  match parse_all_pais buf offs c with
+  | Done o e c' => o <= nnat (length buf) /\ pf_end (pa_lasthval c') <= nnat (length buf) /\
+                   (e = EMore -> offs <= o /\ pa_inv (rev (firstn (N.to_nat o) buf)) o c') /\
+                   (e = EOk -> offs <= o /\ forall pre', pa_inv pre' o c')
+  | _ => False
+  end.
+Proof.
+  intros Ho Hinv.
+  pose proof (rl_parse pa_iter pa_inv (fun o _ c => pf_end (pa_lasthval c) <= o) (fun n c => forall pre', pa_inv pre' n c)) as H.
+  exact (H ltac:(intros p r j s Hj HI; pose proof (pa_step_ok p r j s (conj Hj HI)) as X; unfold pa_step_res, pa_P, pa_Q, rl_Q in *;
+                      destruct (pa_iter p r j s); auto; destruct X as [X1 [X2 X3]]; auto) buf offs c Ho Hinv).
 Qed.
